@@ -280,11 +280,18 @@ class Unquoted(Form):
 
 class Units(Form):
     def describe(self):
-        return "units expression after %s, %d symbolic unit character(s), space=%r" % (self.after, self.n, self.sp)
+        return "units expression after %s, %d symbolic unit character(s), space=%r%s" % (
+            self.after, self.n, self.sp, ", a symbolic white-space character after '<' and before '>'" if getattr(self, "pad", False) else "")
 
     def inputs(self, ctx):
         u = SymStr([ctx.fresh_char("u%d" % i, ((42, 42), (47, 47), (48, 57), (65, 90), (97, 122))) for i in range(self.n)])
-        return {"u": u, "d": SymStr([ctx.fresh_char("d", ((48, 57),))])}
+        inp = {"u": u, "d": SymStr([ctx.fresh_char("d", ((48, 57),))])}
+        if getattr(self, "pad", False):
+            # white space (any of the six characters, line ends included) between the delimiters and the units value:
+            # not part of the units string
+            inp["p1"] = SymStr([ctx.fresh_char("p1", ((9, 13), (32, 32)))])
+            inp["p2"] = SymStr([ctx.fresh_char("p2", ((9, 13), (32, 32)))])
+        return inp
 
     def spell(self, L, inp):
         d = inp["d"]
@@ -296,6 +303,8 @@ class Units(Form):
             val = float(lex) if isinstance(lex, str) else cm.SymFloat(SymStr(SymStr.of(lex).cs))
         else:
             lex, val = "(" + d + ", 2)", [dv, 2]
+        if getattr(self, "pad", False):
+            return lex + self.sp + "<" + inp["p1"] + inp["u"] + inp["p2"] + ">", ("quantity", val, inp["u"])
         return lex + self.sp + "<" + inp["u"] + ">", ("quantity", val, inp["u"])
 
 
@@ -379,6 +388,8 @@ def obligations(tier):
                 for n in (1, 2):
                     for c in ("plain", "semi", "seq" if after != "seq" else "plain"):
                         obs.append(Units(dialect=d, after=after, sp=sp, n=n, ctx=c))
+            for c in ("plain", "seq" if after != "seq" else "plain"):
+                obs.append(Units(dialect=d, after=after, sp=" ", n=2, ctx=c, pad=True))
             for c in Form.ELEM:
                 if after == "seq" and c == "setcmt":
                     continue          # a sequence (with or without units) cannot be a member of a Python set
